@@ -89,3 +89,6 @@ pub assume_specification[usize::next_power_of_two](n: usize) -> (r: usize)
     ensures is_pow2(r as nat), r >= n, forall|q: nat| is_pow2(q) && q >= n ==> r <= q, r >= 1, n >= 1 ==> r < 2 * n, r == np2(n as nat);
 // Rust allocation limit: a Vec of non-zero-sized elements holds at most isize::MAX elements   [assumed]
 #[verifier::external_body] pub proof fn axiom_vec_len_bound<T>(v: &Vec<T>) ensures v@.len() <= 0x7fff_ffff_ffff_ffff { }
+// verifier-side indexing into prover-supplied vectors: an out-of-range index panics (= diverges)
+#[verifier::external_body] pub fn at<T>(v: &Vec<T>, i: usize) -> (r: &T) ensures i < v@.len(), *r == v@[i as int] { unimplemented!() }
+#[verifier::external_body] pub fn at_fr(v: &Vec<Fr>, i: usize) -> (r: Fr) ensures i < v@.len(), r == v@[i as int] { unimplemented!() }
